@@ -61,6 +61,16 @@ def Seq(t):
     return T("seq", t)
 
 
+OSET = T("oset")  # python set of record objects
+RKEY = T("rkey")
+VSET = T("vset")  # python set of attribute values (canonical key + representative + size)
+
+
+def QMap(v):
+    """python dict keyed by QualifiedName (hash/== by URI), remembering the key objects"""
+    return T("qmap", v)
+
+
 def Tup(*ts):
     return T("tuple", *ts)
 
@@ -85,7 +95,7 @@ def mangle(t):
 
 def total_map_value(v):
     """defaultdict(set)/defaultdict(list): absent == empty, so the map is total."""
-    return v.kind in ("set", "seq")
+    return v.kind in ("set", "seq", "vset")
 
 
 class Sorts:
@@ -137,6 +147,24 @@ class Sorts:
             if total_map_value(vv):
                 return "(Array %s %s)" % (self.sort(kk), self.sort(vv))
             return "(Array %s %s)" % (self.sort(kk), self.sort(Opt(vv)))
+        if k == "tarray":
+            return "(Array %s %s)" % (self.sort(t.args[0]), self.sort(t.args[1]))
+        if k == "vset":
+            return "VSet"
+        if k == "oset":
+            return "OSet"
+        if k == "rkey":
+            return "RKey"
+        if k == "qmap":
+            vv = t.args[0]
+            name = "QMap_" + mangle(vv)
+            if name not in self.known:
+                self.known.add(name)
+                inner = self.sort(vv) if total_map_value(vv) else self.sort(Opt(vv))
+                self.decls.append(
+                    "(declare-datatypes ((%s 0)) (((mk_%s (qm_tab_%s (Array String %s)) (qm_key_%s (Array String QN))))))"
+                    % (name, name, mangle(vv), inner, mangle(vv)))
+            return name
         if k == "set":
             return "(Array %s Bool)" % self.sort(t.args[0])
         if k == "seq":
@@ -188,8 +216,15 @@ class Sorts:
         if total_map_value(v):
             if v.kind == "set":
                 return "((as const %s) %s)" % (s, self.empty_set(v.args[0]))
+            if v.kind == "vset":
+                return "((as const %s) vs_empty)" % s
             return "((as const %s) (as seq.empty %s))" % (s, self.sort(v))
         return "((as const %s) %s)" % (s, self.none(v))
+
+
+def qm_names(vv):
+    m = mangle(vv)
+    return "mk_QMap_" + m, "qm_tab_" + m, "qm_key_" + m
 
 
 def _balanced(s):
